@@ -67,6 +67,7 @@ type FuncContract struct {
 	Line       int
 	Opaque     []string // callee names to treat as havoc even if inlinable
 	NoInline   bool
+	InlineAtCalls bool // "inlined": proved against its contract, yet inlined at call sites (helpers whose callers were verified with the body)
 	Bounded    string
 	Hide       [][2]string // (predicate, obligation substring): definition withheld from those obligations
 	Harness    string // hand-written replay harness (path under /verif) demonstrating a violation on the real code
@@ -145,7 +146,7 @@ var clauseKeywords = map[string]bool{
 	"nooverflow": true, "trusted": true, "loop": true, "invariant": true, "decreases": true,
 	"results": true, "pred": true, "spec": true, "axiom": true, "lemma": true, "vars": true,
 	"call": true, "assume": true, "assert": true, "maypanic": true, "checknil": true, "pure": true,
-	"opaque": true, "noinline": true, "harness": true, "hide": true, "iter": true, "assumes": true, "structural": true, "bounded": true, "note": true, "at": true, "before": true, "after": true,
+	"opaque": true, "noinline": true, "inlined": true, "harness": true, "hide": true, "iter": true, "assumes": true, "structural": true, "bounded": true, "note": true, "at": true, "before": true, "after": true,
 }
 
 // rewriteImplies turns "a ==> b" into "implies(a, b)" at every parenthesis level (right associative,
@@ -563,6 +564,9 @@ func (C *Contracts) parseFile(path, pkgPath string) error {
 			curF.HasMod = true
 		case "noinline":
 			curF.NoInline = true
+		case "inlined":
+			// the postconditions are proved on the body, but callers keep inlining the (small) body instead of using them
+			curF.InlineAtCalls = true
 		case "opaque":
 			for _, r := range strings.Split(rest, ",") {
 				curF.Opaque = append(curF.Opaque, strings.TrimSpace(r))
@@ -772,5 +776,8 @@ func exprText(e ast.Expr) string {
 // thin: the contract promises callers nothing — no requires, ensures or assumes, and the inferred frame; it only pins
 // obligations at call sites inside the function itself.
 func (c *FuncContract) thin() bool {
+	if c.InlineAtCalls && !c.Trusted && len(c.Requires) == 0 {
+		return true
+	}
 	return !c.Trusted && !c.Pure && !c.NoInline && c.ModAuto && len(c.Requires) == 0 && len(c.Ensures) == 0 && len(c.Assumes) == 0 && len(c.Modifies) == 0
 }
